@@ -58,7 +58,7 @@ func init() {
 	Register(&Check{
 		ID: "C15", Level: "exploration", Tech: "deterministic simulation: seam monitors (drive writer opens, index-store mutations) + tape digest + full row dump after every call on read-only instances, differential reads against a writable twin",
 		Rule:      "a writable instance populates a tape from a generated history; then a read-only instance (composition A: with write backend; composition B: as `serve http` builds it, writeOps=nil and no write cache; index present or absent) receives a generated history of every mutating and non-mutating method incl. OpenFile with every flag set and writes/truncates/syncs on the handles; after every call: no drive writer was opened, no mutating index-store method was called, SHA-256 of the tape and the dump of all index rows are unchanged, explicit mutators fail with a permission error, nothing panics, and pure reads return what a writable twin over copies returns; non-trivial = at least 3 mutating and 2 read calls on a tape with >= 3 entries; distinct by (composition, op kinds)",
-		QuickRuns: 2500, QuickSecs: 60, ThoroughRuns: 40000, ThoroughSecs: 1500,
+		QuickRuns: 6000, QuickSecs: 60, ThoroughRuns: 40000, ThoroughSecs: 1500,
 		Assumptions: []string{"building a missing index on first open is allowed; the baseline for 'unchanged' is taken right after the read-only instance has been initialised"},
 		Gen: func(r *rand.Rand, tier string, relax Relax) *Case {
 			c := &Case{Cfg: GenConfig(r, 0.6), P: map[string]int64{}, S: map[string]string{}}
